@@ -31,6 +31,7 @@ function e.cpf(frame) return frame:callParserFunction("lc", "ABC") end
 function e.tag(frame) return frame:extensionTag("ref", "zz") end
 function e.perr(frame) local ok, v = pcall(error, "inner") return "caught" end
 function e.slow(frame) while true do end end
+function e.cpfbad(frame) return frame:callParserFunction('#expr', '1/0/2') end
 function e.parent(frame) local p = frame:getParent() return p and (p.args[1] or "-") or "noparent" end
 return e
 """
@@ -57,7 +58,7 @@ FORMS = [
     "{{#invoke:m|ok|@}}", "{{#invoke:m|err|@}}", "{{#invoke:nomod|f}}", "{{#invoke:m|nofn}}",
     "{{#invoke:m}}", "{{#invoke:m|nested}}", "{{#invoke:m|pp}}", "{{#invoke:m|et}}",
     "{{#invoke:m|loopt}}", "{{#invoke:m|cpf}}", "{{#invoke:m|tag}}", "{{#invoke:m|perr}}",
-    "{{#invoke:bad|f}}",
+    "{{#invoke:bad|f}}", "{{#invoke:m|cpfbad}}", "{{#ausdruck:1+}}", "{{#ausdruck:1/0/2|@}}", "{{#expr:1/0/2}}", "{{a|²=@}}",
 ]
 QUICK_FORMS = [f for i, f in enumerate(FORMS) if i % 2 == 0 or "invoke" in f]
 SLOW_FORM = "{{#invoke:m|slow}}"
@@ -103,7 +104,7 @@ class RecList(list):
 
 
 def make_ctx():
-    ctx = new_ctx(lua=True)
+    ctx = new_ctx(lua=True, parser_function_aliases={"#ausdruck": "#expr"})
     for t, b in LIB.items():
         ctx.add_page(t, 10, b)
     ctx.add_page("Module:m", 828, MOD_M, model="Scribunto")
@@ -200,6 +201,14 @@ def run_case(ctx, case, graph=None):
                     out.append(("no_bogus_depth", {"list": name, "msg": r["msg"][:100], "reps": reps}, "none"))
                     break
     check_messages(ctx, title, section, subsection, out)
+    if case.get("then_plain") and raised is None:
+        # the same title started again without a section: records must carry the current (empty) section
+        ctx.start_page(title)
+        try:
+            do_call(ctx, page, opts, timeout=case.get("timeout"))
+        except Exception as e:
+            raised = type(e).__name__
+        check_messages(ctx, title, None, None, out)
     if maxdepth[0] > 110:
         out.append(("depth_bound", maxdepth[0], "<= 110"))
     ctx.start_page(title)
@@ -255,6 +264,12 @@ def build_cases(tier):
         for o in opts:
             if o["hook"] in ("none", "tf_mark"):
                 cases.append({"page": p, "opts": o, "reps": reps, "section": "Sec", "subsection": "Sub"})
+    # restart slice: page with section/subsection, then the same title started again without them
+    for f in FORMS + ["<i>x\n<b>y", "{{missing}}<foo>"]:
+        p = f.replace("@", "z")
+        for o in opts:
+            if o["hook"] == "none":
+                cases.append({"page": p, "opts": o, "section": "Sec", "subsection": "Sub", "then_plain": True})
     # message location slice with section set, depth-3 nesting (thorough)
     if tier == "thorough":
         holes = [f for f in FORMS if "@" in f]
